@@ -3,4 +3,5 @@ CONSTANTS
   Layouts <- LayoutsVod0
   MaxLoops = 4
   FixEndIdx = TRUE
+  FixPadding = TRUE
 INVARIANTS Served StartOK CountOK
